@@ -132,12 +132,85 @@ def r_convert(A, ctx, scope, rule="R-CONVERT"):
                 continue
             n += 1
             ok = acc is None or (isinstance(acc, ast.Constant) and acc.value in ("csc", False))
+            if not ok and target == "X" and not _unconverted_reader(A, f, c):
+                # the matrix only goes to solver.solve(), which converts (R-SOLVEFORMAT), and to slot
+                # methods that ignore the CSC triple for every datafit this branch admits
+                ok = True
             ctx.ob(rule, f"{f.fq}::{norm_src(c)[:70]}", ok,
                    what=f"`{norm_src(c)[:70]}` lets sparse formats other than CSC through "
                         f"(accept_sparse={norm_src(acc) if acc is not None else None}): their "
                         "data/indptr/indices are then read by CSC kernels as if they were CSC",
                    loc=loc(f, c))
     ctx.floor(rule, n, scope.get("floor", 6))
+
+
+def _unconverted_reader(A, f, site):
+    """is there, in `f`, a reader of the CSC triple (`.data / .indptr / .indices`) of the matrix validated at
+    `site` (or of a plain alias of it) that can matter?  A slot call such as `datafit.initialize_sparse(X.data,
+    ...)` does not matter when every implementation admitted by the isinstance facts that dominate the
+    validation ignores those parameters (Logistic.initialize_sparse is `pass`)."""
+    prog, flow = A.prog, A.flow
+    cfg = cfg_of(f)
+    snode = None
+    for nd in cfg.stmts():
+        if nd.ast is not None and nd.kind != "for" and any(x is site for x in ast.walk(nd.ast)):
+            snode = nd.id
+    names = {"X"}
+    for st in ast.walk(f.node):
+        if isinstance(st, ast.Assign) and len(st.targets) == 1 and isinstance(st.targets[0], ast.Name) \
+                and isinstance(st.value, ast.Name) and st.value.id in names:
+            names.add(st.targets[0].id)
+    # classes admitted on the branch of the validation: isinstance facts (directly or through a flag)
+    admitted = None
+    if snode is not None:
+        flagdefs = {st.targets[0].id: st.value for st in ast.walk(f.node) if isinstance(st, ast.Assign)
+                    and len(st.targets) == 1 and isinstance(st.targets[0], ast.Name)}
+        for t, lab, _ in cfg.facts_at(snode):
+            if not isinstance(t, ast.expr) or lab != "true":
+                continue
+            for part in ([t] + (t.values if isinstance(t, ast.BoolOp) and isinstance(t.op, ast.And) else [])):
+                e = flagdefs.get(part.id) if isinstance(part, ast.Name) else part
+                if isinstance(e, ast.Call) and ast.unparse(e.func) == "isinstance" and len(e.args) == 2:
+                    cl = e.args[1].elts if isinstance(e.args[1], ast.Tuple) else [e.args[1]]
+                    got = [prog.resolve(f.module, ast.unparse(x)) for x in cl]
+                    got = [g for g in got if type(g).__name__ == "ClassInfo"]
+                    if got:
+                        admitted = [d for d in prog.datafits if any(d is g or d.is_subclass_of(g) for g in got)]
+    for nd in cfg.stmts():
+        if nd.ast is None or nd.kind == "for":
+            continue
+        reads = [x for x in ast.walk(nd.ast) if isinstance(x, ast.Attribute) and x.attr in ("data", "indptr", "indices")
+                 and isinstance(x.value, ast.Name) and x.value.id in names]
+        if not reads:
+            continue
+        # is every read an argument of one slot call whose admitted implementations ignore it?
+        harmless = False
+        for c in ast.walk(nd.ast):
+            if isinstance(c, ast.Call) and isinstance(c.func, ast.Attribute) and all(
+                    any(r is y for a in c.args for y in ast.walk(a)) for r in reads):
+                # an initialisation made in path() is redone by the solver's own _solve on the matrix that
+                # solve() converted: what it computed from the unconverted triple is overwritten
+                if c.func.attr.startswith("initialize") and f.cls is not None and f.cls in prog.solvers:
+                    sv = f.cls.find_method("_solve")
+                    if sv is not None and any(isinstance(x, ast.Call) and isinstance(x.func, ast.Attribute)
+                                              and x.func.attr == c.func.attr for x in ast.walk(sv.node)):
+                        harmless = True
+                        continue
+                kind, callees = flow.resolve_call(f, c)
+                impls = None
+                if kind.startswith("slot:"):
+                    impls = callees
+                elif admitted is not None:
+                    impls = [d.find_method(c.func.attr) for d in admitted]
+                if impls is None or admitted is None:
+                    continue
+                impls = [m for m in impls if m is not None and (m.cls in admitted)] or \
+                        [d.find_method(c.func.attr) for d in admitted if d.find_method(c.func.attr) is not None]
+                if impls and all(not (names_in(m.node) & set(m.call_params()[:3])) for m in impls):
+                    harmless = True
+        if not harmless:
+            return True
+    return False
 
 
 def r_solverstate(A, ctx, scope, rule="R-SOLVERSTATE"):
